@@ -425,12 +425,18 @@ class Driver:
                             ctx.inconc("parser disagreement on synthetic listing")
 
 
-def replay_dsl(ctx, case: dict, quirks=(), classify=None):
+def replay_dsl(ctx, case: dict, quirks=(), classify=None, allow_any_order_defs=False):
     ws = real.Workspace()
     prep = dsl.prep_from_case(ws, case)
     if not prep.verify(ws):
         ctx.inconc("parser disagreement: " + prep.why)
         return
+    try:
+        if not M.defs_on_spine(M.parse_rule(yaml.safe_load(case["rule"])), allow_any_order_defs):
+            ctx.inconc("the rule defines a capture off the executed-once spine: outside the class this check judges")
+            return
+    except M.Unsupported:
+        pass
     o = dsl.evaluate(ws, prep, case["rule"])
     ctx.ran()
     if case.get("compile_twice") and o.status == "ok":
